@@ -14,10 +14,54 @@ thread_local! {
     static TOTAL: Cell<usize> = const { Cell::new(0) };
 }
 
+/// Requests of at least this many bytes get their call site recorded (C13's single-request cap).
+pub const SITE_THRESHOLD: usize = 16 << 20;
+
+thread_local! {
+    static SITE: std::cell::RefCell<Option<std::backtrace::Backtrace>> = const { std::cell::RefCell::new(None) };
+}
+
+#[cold]
+fn capture_site() {
+    // capturing allocates: stop counting while we do it
+    let _ = ARMED.try_with(|a| a.set(false));
+    let _ = SITE.try_with(|s| {
+        if let Ok(mut g) = s.try_borrow_mut() {
+            if g.is_none() {
+                *g = Some(std::backtrace::Backtrace::force_capture());
+            }
+        }
+    });
+    let _ = ARMED.try_with(|a| a.set(true));
+}
+
+/// First `gamedig::` frame of the recorded oversized request, if any.
+pub fn take_site() -> Option<String> {
+    let bt = SITE.with(|s| s.borrow_mut().take())?;
+    let text = format!("{bt}");
+    for line in text.lines() {
+        let l = line.trim();
+        if let Some(pos) = l.find(": ") {
+            let f = &l[pos + 2 ..];
+            if (f.starts_with("gamedig::") || f.starts_with("<gamedig::")) && !f.contains("verif_hook") {
+                let f = match f.rfind("::h") {
+                    Some(i) if f.len() - i == 19 => &f[.. i],
+                    _ => f,
+                };
+                return Some(f.to_string());
+            }
+        }
+    }
+    Some("<no gamedig frame>".into())
+}
+
 #[inline]
 fn on_alloc(size: usize) {
     let _ = ARMED.try_with(|a| {
         if a.get() {
+            if size >= SITE_THRESHOLD {
+                capture_site();
+            }
             let _ = LIVE.try_with(|l| {
                 let v = l.get() + size as isize;
                 l.set(v);
@@ -124,6 +168,7 @@ pub struct AllocStats {
 
 /// Reset counters and start counting on this thread.
 pub fn arm() {
+    SITE.with(|s| *s.borrow_mut() = None);
     LIVE.with(|c| c.set(0));
     PEAK.with(|c| c.set(0));
     MAXREQ.with(|c| c.set(0));
